@@ -102,6 +102,10 @@ func main() {
 		}
 		if *list {
 			for _, f := range p.RepoFuncs() {
+				if os.Getenv("LSCHECK_LIST_SIG") != "" && f.Signature != nil {
+					fmt.Printf("%s\t%s\n", QualName(f), funcKey(f))
+					continue
+				}
 				fmt.Println(QualName(f))
 			}
 			return
